@@ -456,26 +456,20 @@ def standard_prelude(chk, with_coqchk=False):
 # ---------------------------------------------------------------------------------------------------------------------------------
 # environment invariance: the same seeded cases in child interpreters started in different process environments
 ENVIRONMENTS = {
+    # (several independent settings share one child interpreter: a difference from the default run is a difference whichever of them caused it; the settings that change
+    #  what the interpreter DOES with unchanged code - warnings as errors, -bb, the old enum semantics, the degraded hosts - stay on their own)
     "default": {},
-    "python -O (PYTHONOPTIMIZE=1)": {"PYTHONOPTIMIZE": "1"},
-    "python -OO (PYTHONOPTIMIZE=2)": {"PYTHONOPTIMIZE": "2"},
+    "python -OO, TZ=XXX-9": {"PYTHONOPTIMIZE": "2", "TZ": "XXX-9"},
+    "python -O, wall clock at the turn of a year": {"PYTHONOPTIMIZE": "1", "VERIF_MASQUERADE": "clock:newyear", "@skip_labels": "real-clock"},
     "warnings raised as errors": {"VERIF_WARNINGS_AS_ERRORS": "1"},
-    "TZ=XXX-9": {"TZ": "XXX-9"},
-    "TZ=XXX+11, LC_ALL=tr_TR.UTF-8": {"TZ": "XXX+11", "LC_ALL": "tr_TR.UTF-8", "LANG": "tr_TR.UTF-8"},
-    "private CA bundle (SSL_CERT_FILE / SSL_CERT_DIR)": {"SSL_CERT_FILE": "@forged_root_bundle", "SSL_CERT_DIR": "@forged_root_dir"},
-    "logging at DEBUG level (root logger)": {"VERIF_LOGGING": "root"},
-    "logging at DEBUG level ('webauthn' logger hierarchy)": {"VERIF_LOGGING": "webauthn"},
+    "TZ=XXX+11, LC_ALL=tr_TR.UTF-8, logging at DEBUG level (root logger)": {"TZ": "XXX+11", "LC_ALL": "tr_TR.UTF-8", "LANG": "tr_TR.UTF-8", "VERIF_LOGGING": "root"},
+    "private CA bundle (SSL_CERT_FILE / SSL_CERT_DIR), logging at DEBUG level ('webauthn' logger hierarchy)": {"SSL_CERT_FILE": "@forged_root_bundle", "SSL_CERT_DIR": "@forged_root_dir", "VERIF_LOGGING": "webauthn"},
     "python -bb (bytes/str comparisons are errors)": {"@args": "-bb"},
-    "python -X dev, -X utf8, PYTHONINTMAXSTRDIGITS=640": {"@args": "-X dev -X utf8", "PYTHONINTMAXSTRDIGITS": "640"},
-    # what the interpreter SAYS it is, to code that asks (harness/envprobe.py masquerade): another implementation, platform, language version, word size
-    "masquerade: PyPy on win32": {"VERIF_MASQUERADE": "pypy,win32"},
-    "masquerade: darwin, Python 3.9, 32-bit sys.maxsize": {"VERIF_MASQUERADE": "darwin,py39,maxsize32"},
+    # what the interpreter SAYS it is, to code that asks (harness/envprobe.py masquerade): another implementation, platform, language version, word size, date
+    "python -X dev, -X utf8, PYTHONINTMAXSTRDIGITS=640, masquerade: PyPy on win32": {"@args": "-X dev -X utf8", "PYTHONINTMAXSTRDIGITS": "640", "VERIF_MASQUERADE": "pypy,win32"},
+    "masquerade: darwin, Python 3.9, 32-bit sys.maxsize, wall clock at the 32-bit rollover (2038-01-19)": {"VERIF_MASQUERADE": "darwin,py39,maxsize32,clock:y2038", "@skip_labels": "real-clock"},
     "masquerade: enum membership test as in Python 3.8-3.11 (TypeError for non-members)": {"VERIF_MASQUERADE": "old-enum"},
-    "masquerade: emscripten, recursion limit 220": {"VERIF_MASQUERADE": "emscripten,small-recursion"},
-    # the wall clock as Python code sees it at remarkable instants (everything the property lets depend on time takes the clock through the two substituted hooks)
-    "masquerade: wall clock on a leap day (2028-02-29)": {"VERIF_MASQUERADE": "clock:leapday", "@skip_labels": "real-clock"},
-    "masquerade: wall clock at the 32-bit rollover (2038-01-19)": {"VERIF_MASQUERADE": "clock:y2038", "@skip_labels": "real-clock"},
-    "masquerade: wall clock at the turn of a year, far future, a Sunday, the past": {"VERIF_MASQUERADE": "clock:newyear", "@skip_labels": "real-clock"},
+    "masquerade: emscripten, recursion limit 220, wall clock on a leap day (2028-02-29)": {"VERIF_MASQUERADE": "emscripten,small-recursion,clock:leapday", "@skip_labels": "real-clock"},
     "masquerade: wall clock in 2090": {"VERIF_MASQUERADE": "clock:far", "@skip_labels": "real-clock"},
     "masquerade: wall clock in 2019": {"VERIF_MASQUERADE": "clock:past", "@skip_labels": "real-clock"},
     # hosts that cannot do everything: outcomes may turn into errors, but nothing the default environment refuses may be accepted (one-directional comparison)
